@@ -5,6 +5,8 @@ import PyamgV.Proofs.GsStrict
 import PyamgV.Proofs.GsArrayRefine
 import PyamgV.Proofs.Cycle
 import PyamgV.Proofs.GsSweep
+import PyamgV.Proofs.ExtC05RefineEx
+import PyamgV.Proofs.ExtComplexGsEnergy
 
 /-! # C05 — a solver that reports symmetric smoothing yields a Hermitian preconditioner
 
@@ -149,5 +151,83 @@ example : WFFlag (K := Rat) LinearMap.id
        Qpost := smOp LinearMap.id (fun _ => 1) 1 [] [] (.gs 1 .backward 1) }] :=
   ⟨fun _ _ => rfl, by simp, by simp, ⟨.gs 1 .forward 1, .gs 1 .backward 1, by decide, by decide, rfl, rfl⟩,
    fun _ _ => rfl, fun _ _ => rfl⟩
+
+/-! ## refinement: the executed cycle model `denseM` IS the textbook operator (extension E12,
+Proofs/ExtC05Refine*.lean)
+
+`denseM` / `solveLvl` / `applySm` / `solveDense` are the definitions of `Model/C05Cycle.lean` the driver
+runs against the working tree (arrays, CSR, the kernel models of C09, the drivers of relaxation.py, the
+recursion of `__solve`, Gauss–Jordan coarsest solve). Arrays are read as functions by `fn`. Scalars: any
+ordered field with `ofRat = Rat.cast` (the driver's real case: `ℚ`, `ofRat = id`). -/
+
+/-- every smoother of the cycle model, as executed (`gauss_seidel` / `sor` forward, backward, symmetric --
+plain kernel iff `omega = 1` --, `jacobi`, `cf_jacobi` / `fc_jacobi` over `jacobi_indexed`, none; any
+iteration counts), read through `fn` is the function-level smoother `smFn` of `sm_isLinIter` -/
+restate executed_smoother_refines := PyamgV.C05.applySm_refines
+/-- the executed recursion `solveLvl` (V and W, any depth) read through `fn` is the abstract recursion `cyc`
+on the levels `absLvl L` (level operators `csrOp`, smoothers `smFn`, smoother operators `smOp`) -/
+restate executed_cycle_refines := PyamgV.C05.solveLvl_refines
+/-- the Gauss–Jordan coarsest solve: if `x` solves `A x = b`, the elimination returns `x` -/
+restate coarse_solve_unique := PyamgV.C05.solveDense_unique
+/-- … what it returns solves the system … -/
+restate coarse_solve_sound := PyamgV.C05.solveDense_sound
+/-- … and whether it succeeds does not depend on the right-hand side -/
+restate coarse_solve_success_indep := PyamgV.C05.solveDense_indep
+/-- one successful coarsest solve ⇒ the coarsest matrix has the right inverse `invOp` assembled from the
+eliminations of the unit vectors, and that is the map the coarsest solve computes (`solveDense_csr`) -/
+restate coarse_matrix_invertible_of_success := PyamgV.C05.coarseInv_of_success
+restate coarse_solve_is_inverse := PyamgV.C05.solveDense_csr
+/-- one executed cycle is `x + M (b − A x)`, `M = MopL S c levels` the textbook composition over `smOp` -/
+restate executed_cycle_is_linear_iteration := PyamgV.C05.solveLvl_affine
+/-- **`denseM` is the matrix of the textbook operator**: whenever it returns `M`, `M i j = (MopL (Ac⁻¹) c
+levels e_j)_i` (shapes and one stored non-zero diagonal entry per row are the only hypotheses) -/
+restate denseM_is_textbook_operator := PyamgV.C05.denseM_is_operator
+/-- on a Galerkin hierarchy that operator is `Mop` of `cyc_isLinIter` / `Mop_sym` / `flag_cycle_symmetric` -/
+restate denseM_is_Mop := PyamgV.C05.denseM_is_Mop
+restate MopL_eq_Mop := PyamgV.MopL_eq_Mop
+/-- `Mop_sym` without the Galerkin condition -/
+restate MopL_sym := PyamgV.MopL_sym
+/-- **flag `True` ⇒ the executed matrix `denseM` is symmetric** (V and W): model hierarchy carrying the
+smoothers `change_smoothers(ml, pre, post)` installs, symmetric level matrices and coarsest matrix, `R = Pᵀ`,
+one stored non-zero diagonal entry per row; no hypothesis on the coarsest solve, no per-instance check -/
+restate flag_denseM_symmetric := PyamgV.C05.flag_denseM_symmetric
+/-- non-vacuity: all hypotheses hold on the 3-point Poisson two-level hierarchy with forward / backward
+Gauss–Seidel over `ℚ`, `ofRat = id` … -/
+restate flag_denseM_symmetric_example := PyamgV.C05Ex.example_denseM_symmetric
+/-- … where `denseM` does return a matrix (kernel evaluation) -/
+restate flag_denseM_symmetric_example_runs := PyamgV.C05Ex.denseM5_isSome
+
+/-! ## complex Hermitian hierarchies (extension E5: realification bridge, Proofs/ExtComplex*.lean)
+
+A complex vector is a pair `(Re, Im) : V × V` over an ordered field, `Jop` is multiplication by `i`,
+`cx Mr Mi` the C-linear operator `Mr + i Mi`, `cip e u v` the complex number `⟨u, v⟩ = Σ conj(uᵢ) vᵢ` as a
+pair, `IsCAdj` Hermitian adjointness `⟨M u, v⟩ = ⟨u, N v⟩`. -/
+
+/-- the real-linear maps commuting with `i` are exactly the `Mr + i Mi` -/
+restate complex_isCLin_iff_cx := PyamgV.isCLin_iff_cx
+/-- for C-linear `M`: `N = Mᴴ` iff `N` is the adjoint of the realification w.r.t. the realified Euclidean form -/
+restate complex_isCAdj_iff_isAdj := PyamgV.isCAdj_iff_isAdj
+/-- in parts: `N = Mᴴ` iff `Nr = Mrᵀ` and `Ni = −Miᵀ` -/
+restate complex_isCAdj_cx_iff := PyamgV.isCAdj_cx_iff
+/-- `M = Mᴴ` iff `Mr` symmetric and `Mi` antisymmetric iff the realification is self-adjoint -/
+restate complex_herm_cx_iff := PyamgV.herm_cx_iff
+/-- `cip (euc ℚ n)` on Gaussian-rational vectors is `Σ_{i<n} conj(xᵢ) yᵢ` -/
+restate complex_cip_is_vdot := PyamgV.cip_euc_crat
+/-- for Hermitian PSD `A`, `⟨w, A w⟩` is real and is the energy of the realified symmetric PSD form `cEnergy` -/
+restate complex_energy_norm_same := PyamgV.cEnergy_en
+/-- the cycle operator (V, W, F) of C-linear pieces is C-linear -/
+restate complex_Mop_isCLin := PyamgV.Mop_isCLin
+/-- **C-linear pieces, Hermitian level operators, post-smoother = (pre-smoother)ᴴ, `R = Pᴴ`, Hermitian coarsest
+solve ⇒ `⟨M u, v⟩ = ⟨u, M v⟩` for the V- and the W-cycle operator** (`Mop_sym` through the bridge) -/
+restate complex_Mop_hermitian := PyamgV.Mop_herm
+/-- the same with every operator given by real and imaginary part; conclusion `M = Mr + i Mi`, `Mr` symmetric,
+`Mi` antisymmetric -/
+restate complex_Mop_hermitian_parts := PyamgV.Mop_herm_parts
+/-- the recursion of `__solve` on such a hierarchy is `x + M (b − A x)` with C-linear Hermitian `M` -/
+restate complex_cycle_preconditioner := PyamgV.ccycle_preconditioner
+/-- `⟨M r, r⟩ ≥ 0` on the range of `A` for a cycle that is non-expansive in the complex energy norm -/
+restate complex_precond_psd := PyamgV.cprecond_psd
+/-- non-vacuity of `complex_Mop_hermitian_parts`: a two-level hierarchy over `[[2, i], [−i, 2]]` -/
+restate complex_example_hierarchy := PyamgV.ExC.example_pwfs
 
 end PyamgV.Props.C05
